@@ -19,10 +19,11 @@ import (
 
 func specRaw() vt.ProtoSpec {
 	return vt.ProtoSpec{
-		Name: "raw",
-		Fn:   func() erpc.ProtoFunc { return socket.RawProtoFunc },
-		Gen:  vt.GenRawLike(vt.MethodAnyBytes, vt.AnyText, nil),
-		Cmp:  func(vt.Msg) vt.CompareOpts { return vt.CompareOpts{} },
+		Name:         "raw",
+		SizePrefixed: true,
+		Fn:           func() erpc.ProtoFunc { return socket.RawProtoFunc },
+		Gen:          vt.GenRawLike(vt.MethodAnyBytes, vt.AnyText, nil),
+		Cmp:          func(vt.Msg) vt.CompareOpts { return vt.CompareOpts{} },
 	}
 }
 
@@ -59,19 +60,21 @@ func jsonBodyNeedsEscaping(b []byte) bool {
 
 func specJSON() vt.ProtoSpec {
 	return vt.ProtoSpec{
-		Name: "json",
-		Fn:   jsonproto.NewJSONProtoFunc,
-		Gen:  vt.GenRawLike(vt.MethodPrintable, vt.AnyText, jsonBodyFix("C05:jsonproto:body-escaping")),
-		Cmp:  func(vt.Msg) vt.CompareOpts { return vt.CompareOpts{} },
+		Name:         "json",
+		SizePrefixed: true,
+		Fn:           jsonproto.NewJSONProtoFunc,
+		Gen:          vt.GenRawLike(vt.MethodPrintable, vt.AnyText, jsonBodyFix("C05:jsonproto:body-escaping")),
+		Cmp:          func(vt.Msg) vt.CompareOpts { return vt.CompareOpts{} },
 	}
 }
 
 func specPB() vt.ProtoSpec {
 	return vt.ProtoSpec{
-		Name: "pb",
-		Fn:   pbproto.NewPbProtoFunc,
-		Gen:  vt.GenRawLike(vt.MethodUTF8, vt.AnyText, nil),
-		Cmp:  func(vt.Msg) vt.CompareOpts { return vt.CompareOpts{} },
+		Name:         "pb",
+		SizePrefixed: true,
+		Fn:           pbproto.NewPbProtoFunc,
+		Gen:          vt.GenRawLike(vt.MethodUTF8, vt.AnyText, nil),
+		Cmp:          func(vt.Msg) vt.CompareOpts { return vt.CompareOpts{} },
 	}
 }
 
